@@ -203,6 +203,16 @@ def check_recipe(r, tier, seed, rep=None, want=None):
                 f4 = compiler.compile_expression(root, Vs)
                 closures.append(("dag-bottom-up", vlab, lambda pd, f=InPlace(f4), vn=vn: f(np.array([pd.get(n, 0.125) for n in vn]))))
                 closures.append(("dag-evaluate", "-", lambda pd, e2=root: e2.evaluate(pd)))
+                # the deep-tree builder on the DAG (interior nodes shared by several parents)
+                old_t = compiler._RECURSION_THRESHOLD
+                try:
+                    compiler._RECURSION_THRESHOLD = 0
+                    compiler._compile_cached.cache_clear()
+                    f5 = compiler.compile_expression(root, Vs)
+                    closures.append(("dag-iterative", vlab, lambda pd, f=InPlace(f5), vn=vn: f(np.array([pd.get(n, 0.125) for n in vn]))))
+                finally:
+                    compiler._RECURSION_THRESHOLD = old_t
+                    compiler._compile_cached.cache_clear()
                 for p_ in pnames:
                     b.named[("par", p_)] = b.parameter(p_)
                 dag_params = [bs.parameter(p_) for p_ in pnames]
